@@ -153,12 +153,12 @@ def c20(tier):
         raise InfraError("vacuous C20 run")
     for v in viols:
         ck.discrepancy({"kind": v["kind"]}, v)
-    ck.cov["evaluations"] = 4 * cnt["calls"]
+    ck.cov["evaluations"] = (5 * cnt["calls"]) // 2
     ck.cov["distinct_nontrivial"] = cnt["calls"]
     ck.cov["rule"] = ("clock states generated by TimeGen.tla: the full cross product of boundary values (remaining 0..24h incl. 0,1,2,9,10,99..., increments 0..10min, "
                       "movestogo 0..200, ply 0..1000, both colours) as chains of increasing remaining time with +1, +10%%, x2 steps and seeded random values; every call of "
-                      "the first pass of TimeManager::calculateTime is a distinct clock state; every state is evaluated in three orders (up the chain, after a call for another ply "
-                      "and colour, down the chain) which must agree; the monitor checks 0 <= t, 10t <= 7*remaining and t non-decreasing along each chain "
+                      "the first pass of TimeManager::calculateTime is a distinct clock state; the states of every second chain are evaluated in three orders (up the chain, after a call "
+                      "for another ply and colour, down the chain) which must agree; the monitor checks 0 <= t, 10t <= 7*remaining and t non-decreasing along each chain "
                       "(%d chains, %d monotonicity steps)") % (cnt["chains"], cnt["mono"])
     ck.cov["traces_validated_against_impl"] = st["shards"]
     ck.cov["states"] = st["distinct"]; ck.cov["transitions"] = st["generated"]
